@@ -1,6 +1,6 @@
 SPECIFICATION Spec
 CONSTANTS
-  Fixed = TRUE
+  FixedGroups <- Groups
   Scenarios <- MCScenarios
 INVARIANTS NoRace LockDiscipline
 CHECK_DEADLOCK FALSE
